@@ -15,7 +15,7 @@ RULE = ("dimension lists with at least one two- or three-axis index, extra exten
         "possible (exposes transposed axes), several multi-axis dims at once, some extra-axis positions entirely at the common value (a slice without entries); every aggregate of C03 on both cube types: "
         "result.shape == extra extents (dimension order, then axis order) + category extents (+ fact columns) and every "
         "block result[j1..jm] == the same aggregate over the dims sliced at (j1..jm), computed by the real code on the "
-        "1-D slices, and == the direct per-cell computation (Fractions) over those slices - also for an index cube built BEFORE one of its multi-axis dimensions is updated in place; the model's slices1d labels/slices are compared with the real generator. Non-trivial = at least two "
+        "1-D slices, and == the direct per-cell computation (Fractions) over those slices - also for an index cube built BEFORE one of its multi-axis dimensions is updated in place; sparse multi-axis dimensions declaring 2^28..2^30 rows (where the index cube turns its thread pool on by itself; 5, 6, 7, 9 sub-cubes) block by block against the cubes of their slices; the model's slices1d labels/slices are compared with the real generator. Non-trivial = at least two "
         "sub-cubes; distinct by (case, aggregate, cube type)")
 ASSUMPTIONS = ["as C03 (exact dyadic stream)"]
 
@@ -152,11 +152,67 @@ def check(ctx, case, reqs, pend):
             pend.append((A.small_desc(case), got))
 
 
+def declared_huge(ctx):
+    """sparse multi-axis dimensions declaring 2^28 .. 2^30 rows (a handful listed): the index cube switches to its
+    thread pool by itself at this size; every block must still be the cube of the 1-D slices its label names"""
+    from catii import ccube, iindex
+    for scaffold in ([(2, 3), (5,), (7,), (3, 3)] if ctx.scale == 1 else [(2, 3), (5,), (7,), (3, 3), (2, 5), (9,), (3, 2, 2), (11,)]):
+        N = ctx.rng.choice([2**28, 2**29 + 3, 2**30])
+        dims, shapes = [], []
+        for cols in scaffold:
+            extent = ctx.rng.randrange(2, 4)
+            common = ctx.rng.randrange(extent)
+            ent = {}
+            for c in range(cols):
+                used = set()
+                for v in range(extent):
+                    if v == common or ctx.rng.random() < 0.25:
+                        continue
+                    rows = sorted(set(ctx.rng.choice([0, 1, 2, 3, 5, 8, N - 1, N - 2, N // 2, 2**24 + 1])
+                                      for _r in range(ctx.rng.randrange(1, 4))) - used)
+                    if rows:
+                        used |= set(rows)
+                        ent[(v, c)] = np.array(rows, dtype=np.uint32)
+            dims.append(iindex(ent, common, (N, cols)))
+            shapes.append(extent)
+        desc = {"declared_rows": N, "scaffold": list(scaffold),
+                "dims": [{"common": int(d.common), "entries": {str(k): v.tolist() for k, v in dict.items(d)}} for d in dims]}
+        ctx.case(desc, nontrivial=True)
+        try:
+            cube = ccube(dims, interacting_shape=tuple(shapes))
+            ctx.hit("declared_huge:pooled" if cube.parallel else "declared_huge:serial")
+            res = np.asarray(P_run(lambda: cube.count(return_missing_as=(0, False))[0]))
+        except Exception as e:
+            ctx.oracle_fail("count over dimensions declaring %d rows raised %s: %s" % (N, type(e).__name__, str(e)[:80]), desc,
+                            cls="C13-raises")
+            continue
+        per_dim = [list(d.slices1d()) for d in dims]
+        for combo in itertools.product(*per_dim):
+            js = tuple(int(e) for co, _ in combo for e in co)
+            sub = np.asarray(ccube([sl for _, sl in combo], interacting_shape=tuple(shapes)).count(return_missing_as=(0, False))[0])
+            ctx.evaluations += 1
+            if not np.array_equal(res[js], sub):
+                ctx.oracle_fail("count over dimensions declaring %d rows: block %s is %s, the cube of the slices labelled %s is %s" % (
+                    N, js, res[js].tolist(), js, sub.tolist()), desc, cls="C13-block-direct")
+                break
+
+
+def P_run(fn):
+    import pool_common as P
+    r = P.run_with_timeout(fn, 120)
+    if r[0] == "timeout":
+        raise core.Infra("pooled count did not finish within 120 s")
+    if r[0] == "raise":
+        raise r[1]
+    return r[1]
+
+
 def run(ctx):
     core.load_catii()
     reqs, pend = [], []
     for _ in range(ctx.n(25)):
         check(ctx, gen_multi(ctx.rng), reqs, pend)
+    declared_huge(ctx)
     if ctx.oracle_only:
         return
     for (desc, got), m in zip(pend, ctx.model.run(reqs)):
